@@ -202,6 +202,12 @@ def oracle(case, res, serial_res=None):
             bad.append(f"caller {c}: {len(outs)} outcomes for {len(prog)} operations")
         for k, out in enumerate(outs):
             key = (c, k)
+            if key in res.cancelled or out[0] == "cancelled":
+                if out != ("cancelled",) or key not in res.cancelled:
+                    bad.append(f"operation {key}: cancelled while waiting for the lock = {key in res.cancelled}, but it ended with {out}")
+                if any((e[0], e[1]) == key for e in wire):
+                    bad.append(f"operation {key} was cancelled while waiting for the lock, yet it made transport calls")
+                continue
             if key in failed_keys:
                 if out[0] != "exc" or out[1] != "ScrapliConnectionError" or S.INJECTED not in out[2]:
                     bad.append(f"operation {key}: transport fault surfaced as {out}")
@@ -224,6 +230,8 @@ def oracle(case, res, serial_res=None):
         for c in range(len(case["progs"])):
             a = [(o[0], norm(o[1]) if o[0] == "ok" else o[1:]) for o in res.results[c]]
             b = [(o[0], norm(o[1]) if o[0] == "ok" else o[1:]) for o in serial_res.results[c]]
+            if serial_res.cancelled != res.cancelled:
+                bad.append(f"harness: the one-at-a-time re-run cancelled {sorted(serial_res.cancelled)} instead of {sorted(res.cancelled)}")
             if a != b:
                 bad.append(f"caller {c}: results differ from the one-at-a-time run in the same order: {a!r} vs {b!r}")
         if [(e[0], e[1], e[2], e[4]) for e in res.wire] != [(e[0], e[1], e[2], e[4]) for e in serial_res.wire] or \
@@ -232,35 +240,58 @@ def oracle(case, res, serial_res=None):
     return bad
 
 
-def serial_schedule(res, stack):
+def serial_schedule(res, stack, ncallers):
     """non-preemptive schedule with the acquisition order observed in `res`: every operation gets exactly the
-    entries it needs (threads: the lock + one per transport call; tasks: the lock + one per read)"""
-    sch = []
+    entries it needs (threads: the lock + one per transport call; tasks: the lock + one per read); an operation that
+    was cancelled while waiting is cancelled again as soon as its caller waits for it"""
+    sch, nxt = [], [0] * ncallers
+
+    def cancels(c):
+        while (c, nxt[c]) in res.cancelled:
+            sch.append(10 + c)
+            nxt[c] += 1
+
+    for c in range(ncallers):
+        cancels(c)
     for key, _a, _b, cnt in blocks(res.wire):
         if stack == "async":
             cnt = sum(1 for e in res.wire if (e[0], e[1]) == key and e[2] == "R")
         sch += [key[0]] * (cnt + 1)
+        nxt[key[0]] = key[1] + 1
+        cancels(key[0])
     return sch
 
 
 # ---------------------------------------------------------------- model side
-def model_line(case, shapes, sch):
+def model_line(case, shapes, sch, res=None):
+    """request line for Drv/C19.lean.  The harness counts the fault as "k-th transport call of caller c"; which call of
+    which operation that is depends on the operations abandoned by cancel events, so it is read off the real wire"""
     fault = tuple(case["fault"]) if case.get("fault") else None
+    fpos = None
+    if res is not None:
+        for i, e in enumerate(res.wire):
+            if e[4]:
+                fpos = (e[0], e[1], sum(1 for x in res.wire[:i] if (x[0], x[1]) == (e[0], e[1])) + 1)
     progs = []
     for c, prog in enumerate(shapes):
         n, ops = 0, []
-        for op in prog:
+        for k, op in enumerate(prog):
             steps = []
-            for kind, data in op:
+            for m, (kind, data) in enumerate(op):
                 n += 1
                 t = "r" if kind == "R" else "w" + data.hex()
-                if fault == (c, n):
+                if (res is None and fault == (c, n)) or (res is not None and fpos == (c, k, m + 1)):
                     t += "!"
                 steps.append(t)
             ops.append(",".join(steps))
         progs.append(";".join(ops) if ops else ".")
     return "%s %d %s %s %s" % ("s" if case["stack"] == "sync" else "a", 1 if case["lock"] else 0, PROMPT.hex(), "/".join(progs),
-                               "".join(map(str, sch)) or ".")
+                               sched_str(sch) or ".")
+
+
+def sched_str(sch):
+    """digits = run that caller, letters a.. = cancel caller 0.. while it waits for the lock"""
+    return "".join(str(e) if e < 10 else chr(97 + e - 10) for e in sch)
 
 
 def parse_model(line):
@@ -272,7 +303,7 @@ def parse_model(line):
             wire.append((int(c), int(k), kind[0], unhex(w) if kind[0] == "W" else unhex(d), kind.endswith("!")))
     results = []
     for cal in res_s.split("/"):
-        results.append([] if cal == "." else [(x.split(":")[0], unhex(x.split(":")[1])) for x in cal.split(";")])
+        results.append([] if cal == "." else [(int(x.split("=")[0]), x.split("=")[1].split(":")[0], unhex(x.split(":")[1])) for x in cal.split(";")])
     return wire, results, lk, dn
 
 
@@ -289,7 +320,8 @@ def compare(case, res, mline):
     for c in range(len(case["progs"])):
         real = []
         for k, out in enumerate(res.results[c]):
-            real.append(("ok" if out[0] == "ok" else "fail", op_reads(rw, (c, k))))
+            if out[0] != "cancelled":       # an operation abandoned while waiting for the lock is in no log of the model either
+                real.append((k, "ok" if out[0] == "ok" else "fail", op_reads(rw, (c, k))))
         if real != mres[c]:
             return f"caller {c}: outcomes/reads impl={real} model={mres[c]}"
     if (lk == "L-") != res.lock_free_at_end or (dn == "D1") != res.all_done:
@@ -353,6 +385,23 @@ def gen_cases(ck, tier):
                 fault = (rng.randrange(n), rng.randint(1, 9)) if rng.random() < 0.4 else None
                 add(f"rnd{n}", stack, kinds, S.random_schedule(rng, n, rng.randint(1, 40), stick=rng.choice([0.2, 0.5, 0.8])),
                     fault=fault, cut=None if fault else rng.choice([None, 1, 3, 8]), tops=BIG_TIMEOUT if rng.random() < 0.1 else 0)
+        # D: a task gives up (cancel / asyncio timeout) while it WAITS for the lock: cancel events in the schedule
+        if stack == "async":
+            L = 5 if tier == "quick" else 7
+            for j, kinds in enumerate(([["si"], ["gp", "si"], ["sir"]], [["int1"], ["si"], ["gp"]])):
+                for sch in itertools.product((0, 1, 2, 11), repeat=L - j if tier == "quick" else L):
+                    if 11 in sch:
+                        add("exh3-cancel", stack, kinds, sch)
+            for sch in itertools.product((0, 1, 10, 11), repeat=L):
+                if 10 in sch or 11 in sch:
+                    add("exh2-cancel", stack, [["si", "gp"], ["gp", "si"]], sch)
+            for n in (2, 3, 4):
+                for _ in range(80 if tier == "quick" else 2000):
+                    kinds = [[rng.choice(("gp", "si", "sir", "int1", "int2")) for _ in range(rng.randint(1, 3))] for _ in range(n)]
+                    fault = (rng.randrange(n), rng.randint(1, 9)) if rng.random() < 0.3 else None
+                    sch = S.with_cancels(rng, S.random_schedule(rng, n, rng.randint(2, 30), stick=rng.choice([0.2, 0.5, 0.8])), n, p=rng.choice([0.1, 0.3]))
+                    add(f"rnd{n}-cancel", stack, kinds, sch, fault=fault, cut=None if fault else rng.choice([None, 1, 4]),
+                        tops=BIG_TIMEOUT if rng.random() < 0.2 else 0)
         # U: channel_lock off (sanity of the rig + advisory correspondence)
         for x, y in (("si", "si"), ("gp", "si"), ("int1", "sir")):
             L = min(st[x] + st[y], cap if tier == "thorough" else 7)
@@ -364,7 +413,7 @@ def gen_cases(ck, tier):
 def case_tags(case, res):
     contended = any(k == "-blocked" for _, k in res.steps)
     return (case["fam"], case["stack"], f"callers={len(case['progs'])}", "fault" if case["fault"] else "no-fault",
-            f"cut={case['cut']}", "contended" if contended else "uncontended", "timeout-decorator" if case["tops"] else "timeout-off",
+            f"cut={case['cut']}", "contended" if contended else "uncontended", "cancel-while-waiting" if res.cancelled else "no-cancel", "timeout-decorator" if case["tops"] else "timeout-off",
             *{f"op={k}" for ks in case["kinds"] for k in ks})
 
 
@@ -397,7 +446,7 @@ def execute(cases, with_serial):
         shapes, sch, res = run_sync_case(rig_s, case)
         ser = None
         if case["lock"] and with_serial(case, res):
-            _, _, ser = run_sync_case(rig_s, case, schedule=serial_schedule(res, case["stack"]) + S.round_robin(len(case["progs"]), total_steps(shapes)))
+            _, _, ser = run_sync_case(rig_s, case, schedule=serial_schedule(res, case["stack"], len(case["progs"])) + S.round_robin(len(case["progs"]), total_steps(shapes)))
         out[i] = (case, shapes, sch, res, ser)
 
     async def all_async():
@@ -408,7 +457,7 @@ def execute(cases, with_serial):
             shapes, sch, res = await run_async_case(rig_a, case)
             ser = None
             if case["lock"] and with_serial(case, res):
-                _, _, ser = await run_async_case(rig_a, case, schedule=serial_schedule(res, case["stack"]) + S.round_robin(len(case["progs"]), total_steps(shapes)))
+                _, _, ser = await run_async_case(rig_a, case, schedule=serial_schedule(res, case["stack"], len(case["progs"])) + S.round_robin(len(case["progs"]), total_steps(shapes)))
             out[i] = (case, shapes, sch, res, ser)
 
     asyncio.run(all_async())
@@ -480,6 +529,9 @@ def timed_scenarios(tier, rng):
         {"tname": "SimTransport", "hung": ["si", "echo"], "queued": [["si"], ["gp"]], "queued_first": True},
         {"tname": "SimTransport", "hung": ["int", "output"], "queued": [["sir"], ["gp"]]},
         {"tname": "TelnetTransport", "hung": ["sir", "output"], "queued": [["gp"]]},
+        # a caller whose timeout expires while it WAITS for the lock (its pool worker is parked on it); the holder is slow, not dead
+        {"waiter": True, "tname": "SimTransport", "hung": ["gp", "wait"], "queued": [["si"]], "a_timeout": 6.0, "a_delay": 2.0},
+        {"waiter": True, "tname": "SystemTransport", "hung": ["si", "wait"], "queued": [], "a_timeout": 6.0, "a_delay": 2.0},
     ]
     if tier == "thorough":
         for hk, when in itertools.product(("si", "sir", "gp", "int"), ("echo", "output")):
@@ -568,10 +620,10 @@ def timed_family(ck, tier, closes_before_join):
         if not r.get("lock_held_while_hung"):
             raise HarnessError(f"timed scenario did not get the silent operation blocked inside the lock context: {sc} {r}")
         ck.case(("timed", json.dumps(sc, sort_keys=True)), nontrivial=True, sample={"timed": sc, "hung": r["hung"]},
-                tags=("timed", "threads", f"transport={sc['tname']}", f"hung={sc['hung'][0]}/{sc['hung'][1]}", f"queued={len(sc['queued'])}"))
+                tags=("timed", "threads", "waiter-times-out" if sc.get("waiter") else "holder-times-out", f"transport={sc['tname']}", f"hung={sc['hung'][0]}/{sc['hung'][1]}", f"queued={len(sc['queued'])}"))
         for what in timed_oracle(sc, r)[:1]:
             ck.violation({"timed": sc, "observed": r}, what, matcher)
-        if mout is not None:
+        if mout is not None and not sc.get("waiter"):
             pc, lk, _cl = mout[i].split(" ")
             real = ("raised" if (not r["hung"]["alive"] and r["hung"]["outcome"][:2] == ["exc", "ScrapliTimeout"]) else "blocked",
                     "1" if r["lock_locked_after"] else "0")
@@ -598,7 +650,11 @@ def run(tier, seed):
                "its own killable process): one operation meets a device that goes silent (before the echo / after the return; get_prompt, "
                "send_input, send_input_and_read, interact) while 1-3 callers are queued on the lock; oracle: it ends by ScrapliTimeout, nobody is "
                "still blocked timeout_ops+8s later, lock free, queued callers end with their own result or a scrapli error, the re-opened "
-               "connection serves two fresh callers; compared with the Lean PoolTimeout protocol model fed with the generated close/join order.")
+               "connection serves two fresh callers; compared with the Lean PoolTimeout protocol model fed with the generated close/join order; "
+               "also: a caller whose timeout expires while it WAITS for the lock behind a slow holder. asyncio schedules additionally contain "
+               "CANCEL events (task.cancel() while the task is parked at the lock = what asyncio.wait_for does on timeout): every list over "
+               "{run 0,1,2, cancel 1} of 5 (7) entries for 3 tasks, over {run 0,1, cancel 0,1} of 5 (7) for 2 tasks, PRNG for 2-4 tasks; "
+               "a cancelled operation must make no transport call and leave the lock alone.")
     ck.trusted = ["Lean 4.33.0 kernel; axioms of every theorem audited ⊆ {propext, Classical.choice, Quot.sound}",
                   "tools/gen/c19.py (AST walk: which transport-reaching calls are inside `with self._channel_lock()`; shape of _channel_lock)",
                   "tools/harness/sched.py deterministic scheduler + tools/harness/simdevice.py causal device + props/c19.py comparison"]
@@ -632,7 +688,7 @@ def run(tier, seed):
         runs = execute(cases, with_serial)
     except S.HarnessStuck as e:
         raise HarnessError(f"scheduler stuck: {e}")
-    lines = [model_line(case, shapes, sch) for case, shapes, sch, _res, _ser in runs]
+    lines = [model_line(case, shapes, sch, res) for case, shapes, sch, res, _ser in runs]
     try:
         mout = run_model("C19", lines)
     except Exception as e:
@@ -645,7 +701,7 @@ def run(tier, seed):
         harness = [o for outs in res.results for o in outs if o[0] == "harness"]
         if harness:
             raise HarnessError(f"caller thread died in the harness: {harness[0]} case={slim(case)}")
-        rec = {**slim(case), "schedule_run": "".join(map(str, sch))}
+        rec = {**slim(case), "schedule_run": sched_str(sch)}
         if not case["lock"]:
             unlocked_total += 1
             unlocked_interleaved += bool(interleaved(res.wire))
@@ -717,7 +773,7 @@ def replay(path):
             return await run_async_case(Rig("async"), case)
         shapes, sch, res = asyncio.run(go())
     print("case    ", slim(case))
-    print("schedule", "".join(map(str, sch)))
+    print("schedule", sched_str(sch), "(digits: run caller; letters a..: cancel caller 0.. while it waits for the lock)")
     print("steps   ", " ".join(f"{c}{k[0] if not k.startswith('-') else k}" for c, k in res.steps if k != "-done"))
     for e in res.wire:
         print("  wire   caller %d op %d %s%s %r" % (e[0], e[1], e[2], " FAILED" if e[4] else "", e[3]))
@@ -728,7 +784,7 @@ def replay(path):
     for b in bad:
         print("VIOLATED:", b)
     try:
-        m = run_model("C19", [model_line(case, shapes, sch)])[0]
+        m = run_model("C19", [model_line(case, shapes, sch, res)])[0]
         print("model   ", m)
         print("model-vs-impl:", compare(case, res, m) or "equal")
     except Exception as e:  # noqa: BLE001
